@@ -4,8 +4,18 @@
 #include "statics.h"
 
 #include <algorithm>
+#include <time.h>
 
 double g_wallLimit = 20.0;
+// wall time of the last reference execution (attribution pre-run).  The watchdog of the simulated executions of the
+// same operation is g_wallLimit + 60 x this, so that an operation that is merely slow (large input, loaded machine)
+// can never be mistaken for one that does not return.  Diagnostics of the harness only: never part of a hash.
+static double g_lastRefSeconds = 0;
+static double nowSeconds() {
+    struct timespec ts;
+    clock_gettime(CLOCK_MONOTONIC, &ts);
+    return (double)ts.tv_sec + 1e-9 * (double)ts.tv_nsec;
+}
 
 JP Case::toJson() const {
     JP j = JVal::obj();
@@ -45,7 +55,7 @@ ExecReport simExec(const Case &c, bool linkedAuditHook) {
     rep.heap.begin(0, ++g_opSerial, c.fillSeed, c.op.fault);
     heapBind(&rep.heap);
     ExecOpts opts;
-    opts.wallLimitSec = g_wallLimit;
+    opts.wallLimitSec = g_wallLimit + 60.0 * g_lastRefSeconds;
     LinkedProbe probe;
     probe.ctx = &rep.heap;
     if (linkedAuditHook) {
@@ -68,7 +78,9 @@ bool attributable(const Op &op, Result &ref, std::string &why) {
     ExecOpts o;
     o.wallLimitSec = g_wallLimit;
     refallocSweep();
+    double t0 = nowSeconds();
     ref = execOp(REF, op, o);
+    g_lastRefSeconds = nowSeconds() - t0;
     refallocSweep();
     ambientRestore(true);
     if (ref.skipped) {
